@@ -29,12 +29,6 @@ ANCHORS = ["create_equalizer", "project_out_hctl_var", "project_out_bn_vars", "s
 WRAPPERS = ["create_comparator_var_state", "create_comparator_two_vars"]
 
 
-def engine(prog):
-    """Helpers of the module are inlined; the primitives themselves stay opaque when they call each other (the thin
-    comparator wrappers are inlined, so that the equations are written over create_equalizer)."""
-    return terms.Engine(prog, inline=True, hooks=E.Hooks([LOW], opaque_names=[LOW + a for a in ANCHORS]))
-
-
 def leaves(t, conds=()):
     """(conditions, leaf) pairs of an ite tree."""
     if isinstance(t, tuple) and t and t[0] == "ite":
@@ -71,57 +65,111 @@ def eq_names(t, a, b):
     return None
 
 
+def comparator_fns(prog):
+    """The functions that build a comparator: the shared private builder if there is one, else the public constructors."""
+    out = []
+    f = _fn(prog, "create_equalizer")
+    if f is not None:
+        out.append((f, "both"))
+    else:
+        for name, mode in (("create_comparator_var_state", "state"), ("create_comparator_two_vars", "two")):
+            f = _fn(prog, name)
+            if f is not None:
+                out.append((f, mode))
+    return out
+
+
+def canon_cmp(t):
+    """Both public constructors denote one comparator symbol: create_equalizer(g, name, None | Some(other))."""
+    if not isinstance(t, tuple) or not t:
+        return t
+    r = tuple(canon_cmp(x) if isinstance(x, tuple) else x for x in t)
+    if r[0] in ("call", "rec") and isinstance(r[1], str):
+        l = r[1].rsplit("::", 1)[-1]
+        if l == "create_comparator_var_state" and len(r[2]) == 2:
+            return ("call", LOW + "create_equalizer", (r[2][0], r[2][1], ("ctor", E.NONE, ())))
+        if l == "create_comparator_two_vars" and len(r[2]) == 3:
+            return ("call", LOW + "create_equalizer", (r[2][0], r[2][1], ("ctor", E.SOME, (r[2][2],))))
+    return r
+
+
+def engine(prog):
+    """Helpers of the module are inlined; the primitives themselves stay opaque when they call each other."""
+    names = [LOW + a for a in ANCHORS]
+    if _fn(prog, "create_equalizer") is None:
+        names += [LOW + w for w in WRAPPERS]
+    return terms.Engine(prog, inline=True, hooks=E.Hooks([LOW], opaque_names=names))
+
+
+def check_comparator(rep, rule, eng, f, mode):
+    rep.functions.add(f.qual)
+    s = eng.summary(f)
+    where = f"{f.file}:{f.line}"
+    pn = f.param_names()
+    g = P(pn[0])
+    problems = []
+    alg = setalg.Alg()
+    need = 2 if mode == "both" else 1
+    if not alg.equivalent(alg.interp(s.ret), ("and", alg.interp(s.ret), alg.interp(S.UNIT(g)))):
+        problems.append("the comparator is not intersected with the unit set")
+    iffs = calls(s.ret, "iff")
+    if len(iffs) < need:
+        problems.append("expected one bitwise equivalence per variable (state / other variable)")
+    for c in iffs:
+        names = []
+        for side in c[2]:
+            mk = calls(side, "mk_var_by_name")
+            if not mk:
+                problems.append("equivalence operand is not a BDD variable looked up by name")
+                continue
+            names.append(mk[0][2][-1])
+        fm = []
+        for n in names:
+            fm += [x for x in [n] + list(subterms(n)) if x[0] == "fmt"][:1]
+        own = False
+        others = 0
+        for n in fm:
+            pieces = n[1]
+            args = [p_ for p_ in pieces if isinstance(p_, tuple)]
+            lits = [p_ for p_ in pieces if isinstance(p_, str)]
+            if lits == ["_extra_"] and len(args) == 2 and name_index_ok(args[1][1], pn[1]):
+                own = True
+            elif lits == ["_extra_"] and len(args) == 2 and len(pn) > 2 and (name_index_ok(args[1][1], pn[2]) or name_index_of_payload(args[1][1], pn[2])):
+                others += 1
+            if len(args) == 2 and not (args[1][1][0] == "bin" and args[1][1][1] == "-" and args[1][1][3] == ("lit", 1)
+                                       and args[1][1][2][0] == "call" and args[1][1][2][1].endswith("::len")):
+                problems.append("symbolic copy index is not `name.len() - 1`")
+        if not own:
+            problems.append("no operand is the `<var>_extra_<len(name)-1>` copy of the variable being compared")
+    want = alg.canon(("call", S.GRAPH + "variables", (g,)))
+    if not elems_range_over(s.ret, alg, want):
+        problems.append("a loop does not range over all network variables")
+    # the conjunction is accumulated with `and` over the loop (for-loop or fold), starting from the unit BDD
+    acc = [x for x in subterms(s.ret) if x[0] == "mu" and x[4][0] == "call" and x[4][1].endswith("::and") and ("loopvar", x[1], x[2]) in x[4][2]]
+    if len(acc) < need:
+        problems.append("conjuncts are not accumulated with `and`")
+    rep.check(not problems, rule, f.name, where,
+              "comparator = unit & AND_v (copy(name)_v <=> other_v), copy index = name.len() - 1", "; ".join(sorted(set(problems))))
+
+
+def name_index_of_payload(t, name_param):
+    """`<other>.len() - 1` where other is the payload of an Option parameter."""
+    if t[0] != "bin" or t[1] != "-" or t[3] != ("lit", 1):
+        return False
+    l = t[2]
+    return l[0] == "call" and isinstance(l[1], str) and l[1].endswith("::len") and l[2] and l[2][0][0] == "proj" and l[2][0][1] == P(name_param)
+
+
 def check_primitives(prog, rep, rule):
     eng = engine(prog)
-    # --- create_equalizer -------------------------------------------------------------------------
-    f = _fn(prog, "create_equalizer")
-    if f is None:
-        rep.unresolved(rule, "create_equalizer", "", "function not found")
-    else:
-        rep.functions.add(f.qual)
-        s = eng.summary(f)
-        where = f"{f.file}:{f.line}"
-        pn = f.param_names()
-        g = P(pn[0])
-        problems = []
-        alg = setalg.Alg()
-        if not alg.equivalent(alg.interp(s.ret), ("and", alg.interp(s.ret), alg.interp(S.UNIT(g)))):
-            problems.append("the comparator is not intersected with the unit set")
-        iffs = calls(s.ret, "iff")
-        if len(iffs) < 2:
-            problems.append("expected one bitwise equivalence per branch (state / other variable)")
-        for c in iffs:
-            names = []
-            for side in c[2]:
-                mk = calls(side, "mk_var_by_name")
-                if not mk:
-                    problems.append("equivalence operand is not a BDD variable looked up by name")
-                    continue
-                names.append(mk[0][2][-1])
-            fm = []
-            for n in names:
-                fm += [x for x in [n] + list(subterms(n)) if x[0] == "fmt"][:1]
-            own = False
-            for n in fm:
-                pieces = n[1]
-                args = [p for p in pieces if isinstance(p, tuple)]
-                lits = [p for p in pieces if isinstance(p, str)]
-                if lits == ["_extra_"] and len(args) == 2 and name_index_ok(args[1][1], pn[1]):
-                    own = True
-                if len(args) == 2 and not (args[1][1][0] == "bin" and args[1][1][1] == "-" and args[1][1][3] == ("lit", 1)
-                                           and args[1][1][2][0] == "call" and args[1][1][2][1].endswith("::len")):
-                    problems.append("symbolic copy index is not `name.len() - 1`")
-            if not own:
-                problems.append("no operand is the `<var>_extra_<len(name)-1>` copy of the variable being compared")
-        want = alg.canon(("call", S.GRAPH + "variables", (g,)))
-        if not elems_range_over(s.ret, alg, want):
-            problems.append("a loop does not range over all network variables")
-        # the conjunction is accumulated with `and` over the loop (for-loop or fold), starting from the unit BDD
-        acc = [x for x in subterms(s.ret) if x[0] == "mu" and x[4][0] == "call" and x[4][1].endswith("::and") and ("loopvar", x[1], x[2]) in x[4][2]]
-        if len(acc) < 2:
-            problems.append("conjuncts are not accumulated with `and`")
-        rep.check(not problems, rule, "create_equalizer", where,
-                  "comparator = unit & AND_v (copy(name)_v <=> other_v), copy index = name.len() - 1", "; ".join(sorted(set(problems))))
+    # --- comparator constructors -----------------------------------------------------------------------
+    cfs = comparator_fns(prog)
+    if not cfs:
+        rep.unresolved(rule, "create_equalizer", "", "no comparator constructor found")
+    for f, mode in cfs:
+        check_comparator(rep, rule, eng, f, mode)
+    if len(cfs) == 2:
+        rep.ok(rule, "comparator/constructors", "", "both public comparator constructors are verified separately")
     # --- project_out_hctl_var ----------------------------------------------------------------------
     f = _fn(prog, "project_out_hctl_var")
     if f is None:
@@ -188,7 +236,7 @@ def check_primitives(prog, rep, rule):
         why = []
         lv = leaves(s.ret)
         for conds, t in lv:
-            if same(setalg.Alg(), t, want):
+            if same(setalg.Alg(), canon_cmp(t), want):
                 continue
             if t == st:
                 # identity is only correct when both names are equal
@@ -198,7 +246,7 @@ def check_primitives(prog, rep, rule):
             else:
                 why.append(f"returns {short(t, 160)}")
             good = False
-        if not any(same(setalg.Alg(), t, want) for _, t in lv):
+        if not any(same(setalg.Alg(), canon_cmp(t), want) for _, t in lv):
             good = False
             why.append("never renames")
         rep.check(good, rule, "substitute_hctl_var", f"{f.file}:{f.line}",
@@ -213,7 +261,7 @@ def check_primitives(prog, rep, rule):
         g, d, v = (P(x) for x in pn[:3])
         cmp1 = ("call", LOW + "create_equalizer", (g, v, ("ctor", E.NONE, ())))
         want = E.PROJ_BN(g, S.AND(d, cmp1))
-        rep.check(same(setalg.Alg(), s.ret, want), rule, "compute_valid_domain_for_var", f"{f.file}:{f.line}",
+        rep.check(same(setalg.Alg(), canon_cmp(s.ret), want), rule, "compute_valid_domain_for_var", f"{f.file}:{f.line}",
                   "domain translated to the variable's copy: project_out_bn_vars(domain & comparator(var))",
                   f"computes {short(s.ret, 200)}")
     else:
